@@ -584,11 +584,14 @@ class ReparameterizedTimeTreeModel(TimeTreeModel, CallableModel):
 
     def cuda(self, device: Optional[Union[int, torch.device]] = None) -> None:
         super().cuda(device)
-        self.transform = GeneralNodeHeightTransform(self)
+        # the bounds cached by the ratio transform have to follow the sampling times
+        if isinstance(self.transform, GeneralNodeHeightTransform):
+            self.transform = GeneralNodeHeightTransform(self)
 
     def cpu(self) -> None:
         super().cpu()
-        self.transform = GeneralNodeHeightTransform(self)
+        if isinstance(self.transform, GeneralNodeHeightTransform):
+            self.transform = GeneralNodeHeightTransform(self)
 
     @staticmethod
     def json_factory(
